@@ -1,8 +1,9 @@
 SPECIFICATION TraceSpec
-CONSTANTS BitSpace = 0 Honest = TRUE MaxV = 0 Below = 0 WidthOnly = FALSE
+CONSTANTS BitSpace = 0 Honest = TRUE MaxV = 0 Below = 0 WidthOnly = FALSE RefBy = "format"
 CONSTANTS Nodes <- SessionNodes Names = {} Formats = {} CacheBy = "none" Shared = FALSE
 INVARIANT TraceAccepted
 INVARIANT NodeTypeOK
+INVARIANT RefTypeOK
 INVARIANT ResolvesRegistered
 INVARIANT ExactTypeOK
 INVARIANT ExactSubProfile
